@@ -512,7 +512,7 @@ pub fn after_final_disconnect_child() {
 /// parent side of [`after_final_disconnect_child`]
 fn after_final_disconnect(rep: &Report) -> u64 {
     use std::io::{BufRead, BufReader};
-    let exe = std::env::current_exe().expect("exe");
+    let exe = common::self_exe();
     let mut child = std::process::Command::new(exe).arg("C04-after-disconnect").stdout(std::process::Stdio::piped()).stderr(std::process::Stdio::null()).spawn().expect("spawn");
     let out = child.stdout.take().expect("stdout");
     let (tx, rx) = std::sync::mpsc::channel::<String>();
